@@ -256,3 +256,20 @@ def run(rep, program: Program, tier: str) -> None:
     for fd in r6.findings:
         fd.rule, fd.prop = "R3", PROP
     rule_r4(rep, program)
+    # the factor L = metric.sqrt of every matrix class: L L^T = M (C10-R4 / C10-R2 restricted to the
+    # square-root members; imported lazily, c10 imports this module)
+    from . import c10
+
+    n0 = len(rep.rules)
+    _r1, r4, _r5 = c10.rule_algebra(rep, program)
+    rp = c10.rule_parity(rep, program)
+    rep.rules = rep.rules[:n0]
+    r = rep.rule("R5", "square-root factors: S S^T = M in the operator algebra for every class whose sqrt the momentum draw can use; sign-carrying low-rank sqrt has pure parity", floor=6)
+    r.units = {u for u in (r4.units or set()) if u[1] == "_construct_sqrt"}
+    r.instances = r.exercised = len(r.units) + sum(1 for x in rp.samples if "_construct_sqrt" in str(x))
+    for src in (r4, rp):
+        for fd in src.findings:
+            if "_construct_sqrt" in fd.key:
+                fd.rule, fd.prop = "R5", PROP
+                r.findings.append(fd)
+    rep.extra.pop("members_outside_algebra", None)
